@@ -217,6 +217,8 @@ def _oracle(label, cases_quick, cases_thorough, **family):
 
 ORACLES = {
     'C01': [_oracle('single-variable, and/or/not', 250, 3000, nvars=1, depth=3, neg=True, nested_neg=True),
+            _oracle('single-variable, constants that are collections: membership of a value in a list constant, a list attribute '
+                    'compared with a list constant', 150, 2000, nvars=1, depth=2, neg=True, vocab=['member', 'listeq', 'cmp', 'contains']),
             _oracle('single-variable, bare attribute / index expressions of any type as conditions (truthiness), falsy data', 200, 3000,
                     nvars=1, depth=2, neg=True, nested_neg=True, falsy=True, vocab=['truthy', 'truth', 'cmp', 'name']),
             _oracle('single-variable over distinct objects that compare equal (plain dataclass), comparisons with the constant '
@@ -270,6 +272,8 @@ ORACLES = {
             _oracle('correlated sub-query (its condition mentions the outer variable) after other conditions', 150, 2000,
                     kind='subquery', correlated=True),
             _oracle('the(entity) as a comparison operand, correlated with the enclosing query', 100, 1500, kind='the_operand'),
+            _oracle('a sub-query reached with its own variable already bound that binds a further variable (every match comes up)',
+                    100, 1500, kind='subquery', binds_new=True),
             _oracle('one sub-query object used as a condition in several places of the enclosing condition, evaluated twice', 150,
                     2000, kind='subquery', shared=True),
             _oracle('the() used inside another query: correlated with an outer variable; as the selected term of an enclosing '
@@ -344,6 +348,8 @@ ORACLES = {
     'C16': [_oracle('flatten, parent selected, no condition', 40, 400, kind='flatten', with_cond=False, select_parent=True),
             _oracle('flatten, parent selected, condition', 40, 400, kind='flatten', with_cond=True, select_parent=True),
             _oracle('flatten only, condition', 40, 400, kind='flatten', with_cond=True, select_parent=False, falsy=True),
+            _oracle('conditions on the flattened element incl. a @predicate function over the element and its parent, cache on',
+                    150, 2000, kind='flatten_elem', predicates=True),
             _oracle('flatten where some parents hold one non-iterable value (an int, a string) instead of a collection', 60, 600,
                     kind='flatten', with_cond=False, select_parent=True, singletons=True, n=4),
             _oracle('conditions on the flattened element itself (and / or / not), result cache off', 200, 3000, kind='flatten_elem',
@@ -357,6 +363,7 @@ ORACLES = {
                     select_parent=True, element_first=True, falsy=True)],
     'C19': [_oracle('falsy attribute values as operands', 200, 3000, nvars=1, depth=2, falsy=True, neg=True, nested_neg=True),
             _oracle('falsy / None values as selected outputs', 100, 1500, kind='select', single_attr=True),
+            _oracle('field constraints with None / falsy values in predicate-form terms', 100, 1500, kind='predform', allow_empty=True),
             _oracle('an expression object used as a condition, then as an operand', 100, 1500, kind='reuse'),
             _oracle('one expression that is a selected output AND a condition (either operand of or_ / and_) in the same query, '
                     'falsy data, evaluated twice', 150, 2000, kind='reuse', both_roles=True),
